@@ -56,12 +56,57 @@ def run(ctx):
   other_layouts(ctx)
   sharded_triple(ctx)
   sharded_update_layout(ctx)
+  sketchy_buffer_widths(ctx)
   from . import C13
-  C13.slice_back(ctx)                # stored preconditioners keep their announced shapes
+  C13.slice_back(ctx)
+  C13.parallel_lists(ctx)           # the stale carry of the refresh cond has the taken arm's tree (lengths in the LEN domain)                # stored preconditioners keep their announced shapes
   squeeze_lint(ctx)
   validation(ctx)
   dead_stores(ctx)
   transformation_wiring(ctx)
+
+
+def sketchy_buffer_widths(ctx):
+  """R2k: the per-axis buffers of Tearfree Sketchy are sized from ONE sketch rank k (global or per-axis allocation): eigvecs
+  (d, k), eigvals / inv_eigvals (k,), and the ekfac SVD buffers (d, m) / (m,) with m = min(d, k + <product of the other
+  dims>) built from that same k - `_update_axis` asserts eigvecs is (d, k) and writes SVD factors of the width its k gives,
+  so a buffer sized from another rank changes shape on the first update."""
+  m = ctx.model
+  fi0 = m.func('tearfree.sketchy', '_init._tensor_state')
+  ctx.analysed(fi0)
+  for mem in (True, False):
+    d = Decider(truth={'options.add_ggt': False, 'options.ekfac_svd': True, 'add_ggt': False, 'ekfac': True, 'memory_alloc': mem, 'options.memory_alloc': mem},
+                extra=lambda c: (False if c.op == 'cmp' and c.args[0] == '==' and is_const(c.args[2], 1) else None))
+    ev = evaluator(m, decide=d, opaque={'_locate_path', '_path_to_key'})
+    t0 = ev.run(fi0, args={'path': sym('spec', 'path'), 'param': sym('spec', 'param')})
+    ctx.evaluations += 1
+    rf = rec_fields(t0)
+    if rf is None or rf['axes'].op != 'list':
+      raise AnalysisError('sketchy init does not build _TensorState(axes=[...])')
+    af = rec_fields(ev.elem_of(rf['axes']))
+
+    def zeros_shape(t):
+      t = strip_casts(t)
+      if is_ext_call(t, 'jax.numpy.zeros') and t.args[1] and t.args[1][0].op in ('tuple', 'list'):
+        return list(t.args[1][0].args)
+      return None
+    sv, su, ss = zeros_shape(af['eigvecs']), zeros_shape(af['svd_result_u']), zeros_shape(af['svd_result_s'])
+    se, si = zeros_shape(af['eigvals']), zeros_shape(af['inv_eigvals'])
+    tag = f'[memory_alloc={int(mem)}]'
+    if not (sv and len(sv) == 2 and su and len(su) == 2 and ss and len(ss) == 1 and se and si):
+      raise AnalysisError('sketchy init: axis buffers are not jnp.zeros of literal shapes')
+    k_t = sv[1]
+    ctx.ob('C07.R2', fi0.short, f'eigvals / inv_eigvals have the width of eigvecs {tag}', se == [k_t] and si == [k_t],
+           f'eigvals and inv_eigvals must be (k,) for the k of eigvecs (d, k); got {[show(x, maxdepth=3) for x in se + si]}', ctx.loc(fi0), sample='(k,)')
+    m_t = su[1]
+    okm = su[0] is sv[0] and ss == [m_t] and m_t.op == 'call' and m_t.args[0].op == 'builtin' and m_t.args[0].args[0] == 'min' and len(m_t.args[1]) == 2
+    if okm:
+      other = [a_ for a_ in m_t.args[1] if a_ is not sv[0]]
+      okm = len(other) == 1 and other[0].op == 'bin' and other[0].args[0] == '+' and any(a_ is k_t for a_ in other[0].args[1:]) and \
+          not any(y.op == 'attr' and str(y.args[1]).endswith('rank') for a_ in other[0].args[1:] if a_ is not k_t for y in walk(a_))
+    ctx.ob('C07.R2', fi0.short, f'ekfac SVD buffers sized from the same sketch rank {tag}', okm,
+           f'svd_result_u / svd_result_s must be (d, m) / (m,) with m = min(d, k + other dims) for the SAME k as eigvecs (d, k) = '
+           f'`{show(k_t, maxdepth=4)[:100]}`; got m = `{show(m_t, maxdepth=5)[:160]}`', ctx.loc(fi0), sample='m = min(d, k + prod(other dims))')
 
 
 def sharded_update_layout(ctx):
@@ -709,6 +754,14 @@ def _dtype_of(t):
       if a.op == 'ext' and a.args[0].startswith('jax.numpy.'):
         return _dtype_name(a)
     return 'float32'
+  if n == 'jax.numpy.pad' and t.args[1]:
+    return _dtype_of(t.args[1][0])                  # padding keeps the dtype
+  if n == 'jax.numpy.asarray' and t.args[1]:
+    kw = dict(t.args[2])
+    dt_ = kw.get('dtype', t.args[1][1] if len(t.args[1]) > 1 else None)
+    if dt_ is not None:
+      return _dtype_name(dt_)
+    return _dtype_of(T('call', T('ext', 'jax.numpy.stack'), (t.args[1][0],), ()))
   if n == 'jax.numpy.stack' and t.args[1]:
     lst = t.args[1][0]
     es = [(_dtype_of(e.args[0]) if e.op == 'star' else _dtype_of(e)) for e in lst.args] if lst.op == 'list' else []
